@@ -283,6 +283,15 @@ def run(ctx):
             # a snapshot is only recorded once its checkpoint is complete).  1 replica: nobody to fetch a checkpoint from
             for p in (["snap.saved"] if ctx.quick() else ["snap.saved", "snap.walsynced", "snap.walreleased", "snap.state", "snap.compacted"]):
                 add("b1-mem-%s-ballast" % p, 1, "mem", "point", ["-point", p, "-k", "1", "-ballast", "24"], iso=False)
+            # directed: two snapshots with a restart between them and one after the second - start, writes until a whole
+            # snapshot S1 has been taken (hook snap.compacted = its last step), die, restart, writes until S2, die, restart;
+            # kill -9 at the hook and clean stop (SIGTERM once the hook has been passed) variants, 1 and 3 replicas.  The
+            # third incarnation must come up with a usable configuration and serve the acknowledged state
+            for n, role in ((1, "leader"), (3, "leader"), (3, "follower")):
+                add("dsnap%d-mem-kill-%s" % (n, role), n, "mem", "chain",
+                    ["-chain", "snap.compacted,snap.compacted", "-ops", "40", "-victim", role], iso=False)
+                add("dsnap%d-mem-term-%s" % (n, role), n, "mem", "chain",
+                    ["-chain", "term@snap.compacted,term@snap.compacted", "-ops", "40", "-victim", role], iso=False)
     if ctx.quick():
         pick = rnd.sample(RAFT + APPLY + SNAP, 4)
         add("p3l-mem-" + pick[0], 3, "mem", "point", ["-point", pick[0], "-victim", "leader"])
